@@ -119,19 +119,38 @@ def _time_variants(t):
     import numpy as np
     import pandas as pd
 
-    secs = t.astype("datetime64[s]").astype(np.int64)
-    return {
-        "dt64_s": lambda: t.astype("datetime64[s]"),
+    ns = t.astype("datetime64[ns]").astype(np.int64)
+    whole = bool(np.all(ns % 10**9 == 0))
+    secs = ns // 10**9
+    out = {
         "dt64_ms": lambda: t.astype("datetime64[ms]"),
-        "pydatetime": lambda: [datetime.datetime(1970, 1, 1) + datetime.timedelta(seconds=int(s)) for s in secs],
-        "pd_timestamp": lambda: [pd.Timestamp(int(s), unit="s") for s in secs],
+        "pydatetime": lambda: [datetime.datetime(1970, 1, 1) + datetime.timedelta(microseconds=int(v) // 1000) for v in ns],
+        "pd_timestamp": lambda: [pd.Timestamp(int(v), unit="ns") for v in ns],
         "dtindex": lambda: pd.DatetimeIndex(t),
         "dtindex_utc": lambda: pd.DatetimeIndex(t, tz="UTC"),
         "series": lambda: pd.Series(t),
         "series_utc": lambda: pd.Series(pd.DatetimeIndex(t, tz="UTC")),
-        "epoch_int": lambda: [int(s) for s in secs],
-        "epoch_float": lambda: secs.astype(np.float64),
+        # seconds since the epoch as numbers: quarters of a second are exact in float64 at this magnitude
+        "epoch_float": lambda: ns.astype(np.float64) / 1e9,
+        "epoch_float_list": lambda: [float(v) / 1e9 for v in ns],
     }
+    if whole:
+        out["dt64_s"] = lambda: t.astype("datetime64[s]")
+        out["epoch_int"] = lambda: [int(s_) for s_ in secs]
+        out["epoch_int_array"] = lambda: secs.astype(np.int64)
+    return out
+
+
+_FRACTIONS_NS = (250_000_000, 750_000_000, 500_000_000, 0, 250_000_000, 500_000_000, 750_000_000, 0)
+
+
+def _with_fractions(t):
+    """the same time axis with sub-second parts (multiples of 1/4 s, representable by every carrier used)"""
+    import numpy as np
+
+    ns = t.astype("datetime64[ns]").astype(np.int64)
+    off = np.array([_FRACTIONS_NS[i % len(_FRACTIONS_NS)] for i in range(len(ns))], dtype=np.int64)
+    return (ns + off).astype("datetime64[ns]")
 
 
 def _flags(r):
@@ -186,8 +205,14 @@ class CarrierGrid(Case):
         from pyvc.contract import RealMk
 
         env = self.base.declare(RealMk(values))
-        canon = self._run(env)
         kind, name = variant
+        if kind == "timefrac":
+            # sub-second time axis: canonical call on datetime64[ns], carrier built from the same instants
+            for k, v in list(env.items()):
+                if isinstance(v, np.ndarray) and v.dtype.kind == "M" and k != "x":
+                    env[k] = _with_fractions(v)
+            kind = "time"
+        canon = self._run(env)
         env2 = type(env)(env)
         changed = False
         for k, v in list(env.items()):
@@ -198,7 +223,10 @@ class CarrierGrid(Case):
                 env2[k] = vs[name]()
                 changed = True
             if isinstance(v, np.ndarray) and v.dtype.kind == "M" and kind == "time" and k != "x":
-                env2[k] = _time_variants(v)[name]()
+                tvs = _time_variants(v)
+                if name not in tvs:
+                    return None
+                env2[k] = tvs[name]()
                 changed = True
         if not changed:
             return None
@@ -212,7 +240,8 @@ class CarrierGrid(Case):
 
         dv = list(_data_variants(np.array([1.0])).keys()) + ["int64", "uint8", "int8", "int16"]
         tv = list(_time_variants(np.array([0], dtype="datetime64[ns]")).keys())
-        return [("data", n) for n in dict.fromkeys(dv)] + [("time", n) for n in tv]
+        tf = list(_time_variants(np.array([250_000_000], dtype="datetime64[ns]")).keys())
+        return [("data", n) for n in dict.fromkeys(dv)] + [("time", n) for n in tv] + [("timefrac", n) for n in tf]
 
     def bounded_checks(self, tier, rng):
         grid = list(self.base.grid(tier, rng))
